@@ -81,6 +81,16 @@ func valueIvl(v ssa.Value, depth int, seen map[ssa.Value]bool) ivl {
 		return tr
 	case *ssa.ChangeType:
 		return valueIvl(x.X, depth+1, seen)
+	case *ssa.Extract:
+		if call, ok := x.Tuple.(*ssa.Call); ok {
+			if r, ok := calleeResultIvl(call, x.Index, depth, seen); ok {
+				return r
+			}
+		}
+	case *ssa.Call:
+		if r, ok := calleeResultIvl(x, 0, depth, seen); ok {
+			return r
+		}
 	case *ssa.Phi:
 		out := ivl{math.MaxInt64, math.MinInt64, true}
 		for _, e := range x.Edges {
@@ -114,6 +124,10 @@ func valueIvl(v ssa.Value, depth int, seen map[ssa.Value]bool) ivl {
 		case token.SHR:
 			if b.lo == b.hi && b.lo >= 0 && b.lo < 63 && a.lo >= 0 {
 				return ivl{a.lo >> uint(b.lo), a.hi >> uint(b.lo), true}
+			}
+		case token.QUO:
+			if b.lo == b.hi && b.lo > 0 && a.lo >= 0 {
+				return ivl{a.lo / b.lo, a.hi / b.lo, true}
 			}
 		case token.REM:
 			if b.lo == b.hi && b.lo > 0 && a.lo >= 0 {
@@ -311,4 +325,41 @@ func isLoopBoundedIndex(idx ssa.Value, n int64, b *ssa.BasicBlock) bool {
 		}
 	}
 	return false
+}
+
+// calleeResultIvl: the range of result idx of a static module callee, as the union over its returns (parameters range over
+// their types).
+func calleeResultIvl(call *ssa.Call, idx int, depth int, seen map[ssa.Value]bool) (ivl, bool) {
+	f := call.Call.StaticCallee()
+	if f == nil || f.Blocks == nil || depth > 4 {
+		return ivl{}, false
+	}
+	out := ivl{math.MaxInt64, math.MinInt64, true}
+	n := 0
+	for _, b := range f.Blocks {
+		ret, ok := b.Instrs[len(b.Instrs)-1].(*ssa.Return)
+		if !ok || idx >= len(ret.Results) {
+			continue
+		}
+		n++
+		r := valueIvl(unspill(ret.Results[idx], b), depth+2, seen)
+		if r.lo < out.lo {
+			out.lo = r.lo
+		}
+		if r.hi > out.hi {
+			out.hi = r.hi
+		}
+		out.known = out.known && r.known
+	}
+	if n == 0 {
+		return ivl{}, false
+	}
+	tr := typeIvl(call.Type())
+	if tup, ok := call.Type().(*types.Tuple); ok && idx < tup.Len() {
+		tr = typeIvl(tup.At(idx).Type())
+	}
+	if out.lo < tr.lo || out.hi > tr.hi {
+		return tr, true
+	}
+	return out, true
 }
